@@ -6,6 +6,7 @@
 -/
 import WaveletsVerif.Properties.C10
 import WaveletsVerif.Properties.C07M
+import WaveletsVerif.Properties.C01M
 namespace WV.C10M
 open WV WV.C10 WV.C07M
 variable {R : Type} [CommRing R]
@@ -47,4 +48,197 @@ theorem SFB2D_forward_multi (m : Mode) (hm : ModeS m) (gc0 gc1 gr0 gr1 : List R)
     (fun c hc => keyW _ _ _ _ (hs c hc).1 ((hs c hc).2 0 (by omega)) ((hs c hc).2 1 (by omega)) ((hs c hc).2 2 (by omega)))]
   rfl
 
+/-! ### the level step and the whole inverse pyramid on `C` channels -/
+
+/-- shapes of a level on a stack: all channels share one approximation shape `(A, B)` (the band shape `(h, w)` or one more per
+axis), and every channel's three bands have shape `(h, w)` -/
+def StepOKM (gc0 gr0 : List R) (as : List (Img R)) (d : Option (List (List (Img R)))) : Prop :=
+  ∃ h w A B : Nat, 1 ≤ h ∧ 1 ≤ w ∧ (A = h ∨ A = h + 1) ∧ (B = w ∨ B = w + 1) ∧
+    2 * (gc0.length - 2) + 1 ≤ 2 * (h - 1) + gc0.length ∧ 2 * (gr0.length - 2) + 1 ≤ 2 * (w - 1) + gr0.length ∧
+    1 ≤ as.length ∧ (∀ c < as.length, Shape (as.getD c []) A B) ∧
+    match d with
+    | some v => v.length = as.length ∧ ∀ c < as.length, ∃ cH cV cD, v.getD c [] = [cH, cV, cD] ∧ Shape cH h w ∧ Shape cV h w ∧ Shape cD h w
+    | none => A = h ∧ B = w
+
+/-- the specification's level step on a stack: channel by channel -/
+def stepM (m : Mode) (gc0 gc1 gr0 gr1 : List R) (as : List (Img R)) (d : Option (List (List (Img R)))) : List (Img R) :=
+  tab as.length fun c => stepS2 m gc0 gc1 gr0 gr1 (as.getD c []) (d.map fun v => v.getD c [])
+
+omit [CommRing R] in
+theorem headD_eq_getD0 {β : Type} (l : List β) (d : β) : l.headD d = l.getD 0 d := by cases l <;> rfl
+
+/-- the un-padding the module applies to every channel, decided by the COMMON shape `(A, B)` against the band shape `(h, w)` -/
+def unpadM (A B h w : Nat) (a : Img R) : Img R :=
+  let a1 : Img R := if A > h then a.take (a.length - 1) else a
+  if B > w then a1.map (fun r => r.take (r.length - 1)) else a1
+
+theorem unpadM_eq (A B h w : Nat) (hh : 1 ≤ h) (hA : A = h ∨ A = h + 1) (hB : B = w ∨ B = w + 1) (a : Img R) (sa : Shape a A B) :
+    unpadM A B h w a = unpad a h w := by
+  unfold unpadM unpad
+  have e1 : (a.length = h + 1) ↔ A > h := by rw [sa.1]; omega
+  by_cases c1 : A > h
+  · have c1' := e1.mpr c1
+    have hwt : Img.width (a.take (a.length - 1) : Img R) = a.width := take_width _ _ (by omega)
+    rw [if_pos c1, if_pos c1']
+    by_cases c2 : B > w
+    · rw [if_pos c2, if_pos (by rw [hwt, sa.2]; omega)]
+    · rw [if_neg c2, if_neg (by rw [hwt, sa.2]; omega)]
+  · have c1' : ¬ (a.length = h + 1) := fun hx => c1 (e1.mp hx)
+    rw [if_neg c1, if_neg c1']
+    by_cases c2 : B > w
+    · rw [if_pos c2, if_pos (by rw [sa.2]; omega)]
+    · rw [if_neg c2, if_neg (by rw [sa.2]; omega)]
+
+omit [CommRing R] in
+theorem step_unpad (A B h w : Nat) (as : List (Img R)) :
+    (let ll1 := if A > h then as.map (fun im => im.take (im.length - 1)) else as
+     (if B > w then ll1.map (fun im => im.map fun r => r.take (r.length - 1)) else ll1)) = as.map (unpadM A B h w) := by
+  unfold unpadM
+  by_cases c1 : A > h <;> by_cases c2 : B > w <;> simp [c1, c2, List.map_map, Function.comp_def]
+
+theorem step_eqM (m : Mode) (hm : ModeS m) (gc0 gc1 gr0 gr1 : List R)
+    (hLc : 2 ≤ gc0.length) (hgc : gc1.length = gc0.length) (hLr : 2 ≤ gr0.length) (hgr : gr1.length = gr0.length)
+    (as : List (Img R)) (d : Option (List (List (Img R)))) (hok : StepOKM gc0 gr0 as d) :
+    DWTInverse_step m gc0 gc1 gr0 gr1 as d = some (stepM m gc0 gc1 gr0 gr1 as d) := by
+  obtain ⟨h, w, A, B, hh, hw, hA, hB, hfc, hfr, hC, hsa, hd⟩ := hok
+  have h0 := hsa 0 (by omega)
+  have hun : as.map (unpadM A B h w) = tab as.length fun c => unpad (as.getD c []) h w := by
+    rw [C01M.map_eq_tab' as _]
+    apply tab_ext rfl; intro c hc
+    exact unpadM_eq A B h w hh hA hB _ (hsa c hc)
+  cases d with
+  | some v =>
+    obtain ⟨hvl, hv⟩ := hd
+    obtain ⟨cH0, cV0, cD0, e0, sH0, _, _⟩ := hv 0 (by omega)
+    have hmodel : DWTInverse_step m gc0 gc1 gr0 gr1 as (some v)
+        = SFB2D_forward m gr0 gr1 gc0 gc1 (tab as.length fun c => unpad (as.getD c []) h w) v := by
+      unfold DWTInverse_step
+      simp only [headD_eq_getD0, e0, List.getD_cons_zero, h0.1, h0.2, sH0.1, sH0.2]
+      rw [step_unpad A B h w as, hun]
+    rw [hmodel]
+    have hl : (tab as.length fun c => unpad (as.getD c []) h w).length = as.length := by simp
+    rw [SFB2D_forward_multi m hm gc0 gc1 gr0 gr1 hLc hgc hLr hgr _ v (by rw [hl]; exact hvl) h w hh hw (by
+      intro c hc
+      rw [hl] at hc
+      rw [getD_tab, if_pos hc]
+      obtain ⟨cH, cV, cD, e, sH, sV, sD⟩ := hv c hc
+      refine ⟨unpad_shape _ h w hh (by rw [(hsa c hc).1]; exact hA) (by rw [(hsa c hc).2]; exact hB), ?_⟩
+      intro k hk
+      rw [e]
+      have hk3 : k = 0 ∨ k = 1 ∨ k = 2 := by omega
+      rcases hk3 with rfl | rfl | rfl
+      · exact sH
+      · exact sV
+      · exact sD) hfc hfr]
+    rw [hl]
+    refine congrArg some ?_
+    unfold stepM
+    apply tab_ext rfl; intro c hc
+    rw [getD_tab, if_pos hc]
+    obtain ⟨cH, cV, cD, e, sH, sV, sD⟩ := hv c hc
+    simp only [Option.map_some, stepS2, unpad, e, List.getD_cons_zero, List.getD_cons_succ, sH.1, sH.2]
+  | none =>
+    obtain ⟨hAh, hBw⟩ := hd
+    subst hAh hBw
+    have sz := izero_shape (R := R) A B hh
+    have hmodel : DWTInverse_step m gc0 gc1 gr0 gr1 as none
+        = SFB2D_forward m gr0 gr1 gc0 gc1 as (as.map fun _ => [izero A B, izero A B, izero A B]) := by
+      unfold DWTInverse_step
+      simp only [headD_eq_getD0, h0.1, h0.2]
+      have e1 : ((as.map fun _ => [izero A B, izero A B, izero A B] : List (List (Img R))).getD 0 []).getD 0 [] = (izero A B : Img R) := by
+        have : 0 < as.length := by omega
+        simp [List.getD_eq_getElem?_getD, List.getElem?_replicate, this]
+      rw [e1, sz.1, sz.2]
+      simp
+    rw [hmodel]
+    have hgz : ∀ c < as.length, (as.map fun _ => ([izero A B, izero A B, izero A B] : List (Img R))).getD c [] = [izero A B, izero A B, izero A B] := by
+      intro c hc
+      simp [List.getD_eq_getElem?_getD, List.getElem?_replicate, hc]
+    rw [SFB2D_forward_multi m hm gc0 gc1 gr0 gr1 hLc hgc hLr hgr as _ (by simp) A B hh hw (by
+      intro c hc
+      refine ⟨hsa c hc, ?_⟩
+      intro k hk
+      rw [hgz c hc]
+      have hk3 : k = 0 ∨ k = 1 ∨ k = 2 := by omega
+      rcases hk3 with rfl | rfl | rfl <;> exact sz) hfc hfr]
+    refine congrArg some ?_
+    unfold stepM
+    apply tab_ext rfl; intro c hc
+    rw [hgz c hc]
+    have sc := hsa c hc
+    simp only [Option.map_none, stepS2, List.getD_cons_zero, List.getD_cons_succ, sz.1, sz.2, sc.1, sc.2]
+    have c1 : ¬ (A = A + 1) := by omega
+    have c2 : ¬ (B = B + 1) := by omega
+    simp only [c1, c2, if_false, sc.2]
+
+def CompatM (m : Mode) (gc0 gc1 gr0 gr1 : List R) : List (Img R) → List (Option (List (List (Img R)))) → Prop
+  | _, [] => True
+  | as, d :: rest => StepOKM gc0 gr0 as d ∧ CompatM m gc0 gc1 gr0 gr1 (stepM m gc0 gc1 gr0 gr1 as d) rest
+
+/-- the model of `DWTInverse` on a stack of `C` channels is the channel-wise level step, folded coarse to fine -/
+theorem DWTInverse_multi (m : Mode) (hm : ModeS m) (gc0 gc1 gr0 gr1 : List R)
+    (hLc : 2 ≤ gc0.length) (hgc : gc1.length = gc0.length) (hLr : 2 ≤ gr0.length) (hgr : gr1.length = gr0.length)
+    (as : List (Img R)) (ds : List (Option (List (List (Img R))))) (hc : CompatM m gc0 gc1 gr0 gr1 as ds.reverse) :
+    DWTInverse m gc0 gc1 gr0 gr1 as ds = some (ds.reverse.foldl (stepM m gc0 gc1 gr0 gr1) as) := by
+  unfold DWTInverse
+  generalize ds.reverse = rs at hc
+  induction rs generalizing as with
+  | nil => simp
+  | cons d rest ih =>
+    obtain ⟨hok, hrest⟩ := hc
+    simp only [List.foldlM_cons, List.foldl_cons]
+    rw [step_eqM m hm gc0 gc1 gr0 gr1 hLc hgc hLr hgr as d hok]
+    simp only [Option.bind_eq_bind, Option.bind_some]
+    exact ih _ hrest
+
+/-- **every channel of the result is PyWavelets' `waverec2` of that channel alone** -/
+theorem foldl_stepM_channel (m : Mode) (gc0 gc1 gr0 gr1 : List R) (rs : List (Option (List (List (Img R))))) :
+    ∀ (as : List (Img R)) (c : Nat), c < as.length →
+      (rs.foldl (stepM m gc0 gc1 gr0 gr1) as).length = as.length ∧
+      (rs.foldl (stepM m gc0 gc1 gr0 gr1) as).getD c []
+        = (rs.map fun d => d.map fun v => v.getD c []).foldl (stepS2 m gc0 gc1 gr0 gr1) (as.getD c []) := by
+  induction rs with
+  | nil => intro as c hc; exact ⟨rfl, rfl⟩
+  | cons d rest ih =>
+    intro as c hc
+    simp only [List.foldl_cons, List.map_cons]
+    have hl : (stepM m gc0 gc1 gr0 gr1 as d).length = as.length := by simp [stepM]
+    have := ih (stepM m gc0 gc1 gr0 gr1 as d) c (by rw [hl]; exact hc)
+    refine ⟨by rw [this.1, hl], ?_⟩
+    rw [this.2]
+    congr 1
+    unfold stepM
+    rw [getD_tab, if_pos hc]
+
+theorem DWTInverse_multi_eq_waverec2 (m : Mode) (hm : ModeS m) (gc0 gc1 gr0 gr1 : List R)
+    (hLc : 2 ≤ gc0.length) (hgc : gc1.length = gc0.length) (hLr : 2 ≤ gr0.length) (hgr : gr1.length = gr0.length)
+    (as : List (Img R)) (ds : List (Option (List (List (Img R))))) (hc : CompatM m gc0 gc1 gr0 gr1 as ds.reverse) :
+    ∃ ys, DWTInverse m gc0 gc1 gr0 gr1 as ds = some ys ∧ ys.length = as.length ∧
+      ∀ c < as.length, ys.getD c [] = Spec.waverec2 m gc0 gc1 gr0 gr1 (as.getD c []) (ds.map fun d => d.map fun v => v.getD c []) := by
+  refine ⟨_, DWTInverse_multi m hm gc0 gc1 gr0 gr1 hLc hgc hLr hgr as ds hc, ?_, ?_⟩
+  · cases as with
+    | nil =>
+      have : ∀ rs : List (Option (List (List (Img R)))), (rs.foldl (stepM m gc0 gc1 gr0 gr1) ([] : List (Img R))) = [] := by
+        intro rs; induction rs with
+        | nil => rfl
+        | cons d rest ih => simp only [List.foldl_cons]; rw [show stepM m gc0 gc1 gr0 gr1 ([] : List (Img R)) d = [] by simp [stepM, tab]]; exact ih
+      rw [this]
+    | cons a rest => exact (foldl_stepM_channel m gc0 gc1 gr0 gr1 ds.reverse (a :: rest) 0 (by simp)).1
+  · intro c hcl
+    rw [(foldl_stepM_channel m gc0 gc1 gr0 gr1 ds.reverse as c hcl).2, waverec2_eq_foldl, List.map_reverse]
+
+end WV.C10M
+
+namespace WV.C10M
+open WV WV.C10
+/-- non-vacuity: a concrete one-level integer pyramid on TWO channels (2×2 bands, Haar-like integer filters) is compatible -/
+example : CompatM (R := Int) .zero [1, 1] [1, -1] [1, 1] [1, -1] [[[1, 2], [3, 4]], [[0, 1], [1, 0]]]
+    [some [[[[1, 0], [0, 1]], [[2, 0], [0, 2]], [[0, 1], [1, 0]]], [[[1, 1], [0, 1]], [[2, 1], [0, 2]], [[0, 1], [1, 1]]]]] := by
+  refine ⟨⟨2, 2, 2, 2, by decide, by decide, Or.inl rfl, Or.inl rfl, by decide, by decide, by decide, ?_, by decide, ?_⟩, trivial⟩
+  · intro c hc
+    have : c = 0 ∨ c = 1 := by simp at hc; omega
+    rcases this with rfl | rfl <;> exact ⟨rfl, rfl⟩
+  · intro c hc
+    have : c = 0 ∨ c = 1 := by simp at hc; omega
+    rcases this with rfl | rfl <;> exact ⟨_, _, _, rfl, ⟨rfl, rfl⟩, ⟨rfl, rfl⟩, ⟨rfl, rfl⟩⟩
 end WV.C10M
